@@ -84,7 +84,7 @@ func verifHarness_C02_RetryOnLargest() {
 		steps = 6
 	}
 	rt.Bound("steps", steps)
-	rt.MustCover("stream:fallback-to-queued", "learner:retry-on-largest", "stream:done", "final:worker-response")
+	rt.MustCover("stream:fallback-to-queued", "learner:retry-on-largest", "stream:done", "final:worker-response", "retry:reissued", "retry:limit")
 	r := vsNewRig(1)
 	p := vsPlatform("os", "linux")
 	rt.Assert(r.bq.RegisterPredeclaredPlatformQueue(digest.EmptyInstanceName, p, nil, 0, 0, []uint32{1, 4}) == nil, "queue registered")
@@ -96,8 +96,9 @@ func verifHarness_C02_RetryOnLargest() {
 		maxExecs:  1,
 		cancel:    true,
 		idleKinds: []int{vsSyncIdle},
-		syncKinds: []int{vsSyncCompletedOK, vsSyncCompletedFailed, vsSyncCompletedTimedOut},
-		maxSyncs:  3,
+		syncKinds: []int{vsSyncCompletedOK, vsSyncCompletedFailed, vsSyncCompletedTimedOut, vsSyncIdlePreferIdle},
+		maxSyncs:  4,
+		terminate: true,
 	}
 	r.execute(c)
 	o.execs = []int{1}
